@@ -15,11 +15,11 @@ import (
 )
 
 type zzLConn struct {
-	in      []byte
-	pos     int
-	out     [][]byte
-	remote  net.Addr
-	local   net.Addr
+	in     []byte
+	pos    int
+	out    [][]byte
+	remote net.Addr
+	local  net.Addr
 }
 
 func (c *zzLConn) Read(b []byte) (int, error) {
